@@ -398,7 +398,7 @@ fn arith(d: &mut Draw, quick: bool) -> Shape {
         "0 ** -1", "(-1) ** 4294967297", "8'd255 + 8'd1", "$signed(8'hff)", "$unsigned(-1)", "$size(a)", "msb", "lsb", "a", "a[0]", "_",
     ];
     // cast targets: a cast of an operator expression to a huge width builds a huge mask
-    // (listed finding hang:pass2:arith) — targets are drawn from values known to be small
+    // (listed finding hang:arith) — targets are drawn from values known to be small
     const CAST_VALS: &[&str] = &["0", "1", "8", "65", "W", "1.5", "\"abc\"", "'x", "true", "a", "_", "msb", "$clog2(0)", "1 / 0", "0'd0", "8'hxx", "u8", "i64", "bool"];
     let p = |d: &mut Draw| d.pick(VALS).to_string();
     // quick tier: one item, one extreme value, the other holes benign (a domain small
@@ -592,7 +592,7 @@ fn kinds(d: &mut Draw, quick: bool) -> Shape {
     s
 }
 
-/// Listed finding `hang:pass2:rec_const`: a constant / type whose own
+/// Listed finding `hang:rec_const`: a constant / type whose own
 /// definition refers to itself at least twice is evaluated 2^depth times
 /// (minutes of CPU).  Such items are excluded by construction (token-level
 /// over-approximation) and counted; the reproducer is replayed every run.
